@@ -116,7 +116,7 @@ impl Sim for BootcacheSim {
             id: "C18",
             level: "exploration",
             modes: vec!["nofault", "fault"],
-            quick_runs: 16_000,
+            quick_runs: 12_000,
             thorough_runs: 600_000,
             rule: "One run = one seeded plan over 1..4 processes (real BootstrapCacheStore each) sharing one cache file in a private tmpfs directory: add_addr in six multiaddress shapes, update_addr_status, remove_addr, perform_cleanup, sync_and_flush_to_disk(true|false) and write() executed on writer threads that park at the guarded gates between load / merge+cleanup / open / write / commit, the simulator releasing one parked writer at a time; crafted valid files with last_seen >= 61 s either side of the expiry boundary; limits 1..5 peers, 1..3 addresses per peer, expiry 10 min / 1 h / 24 h. Mode fault adds corrupt files (truncated, bit flip, empty, wrong schema), files of another network, future-dated stamps and processes killed at a gate (their temp files are left behind as after a kill). After every step the real load_cache_data reads the shared file and is compared with an own reader of the file format; if a flush leaves the inode unchanged every byte prefix of the new content is loaded as a crash state. Non-trivial = >=3 operations and (>=1 non-FIFO release or >=1 fired fault); distinct = distinct fingerprint of the executed release decisions and faults.",
             assumptions: vec![
